@@ -63,7 +63,10 @@ def _hist(case):
     if case.get("twin_first") and all(c < 2**50 for c in h.counts()):  # (float outcomes times astronomically large counts overflow: float arithmetic, not asked here)
         # an == / hash-equal histogram with float outcomes is asked first: nothing it computed may leak into h's answers
         t = H([(float(o), 2 * c) for o, c in h.items()])
-        _ = (t.mean(), t.variance(), t.stdev() if t.total else None, list(t.distribution()), t.distribution_xy())
+        try:
+            _ = (t.mean(), t.variance(), list(t.distribution()), t.distribution_xy(), t.stdev() if t.total else None)
+        except (ValueError, OverflowError, ZeroDivisionError):
+            pass  # the float twin's own arithmetic (cancellation can make its variance slightly negative) is not judged
     return h
 
 
